@@ -23,7 +23,7 @@ import re
 import sys
 import tempfile
 
-from ctmverif import core, pipeline, translate_res
+from ctmverif import core, msg_sites, pipeline, translate_res
 
 RULE = ('unit: messages of 1-12 words over a generated real directory layout '
         '(awkward names: commas, quotes, brackets, =, :), words = existing / '
@@ -802,10 +802,15 @@ def read_hdf5_blob(path):
     return out
 
 
+SEEN_TEXTS = []     # log lines / error texts of the runs (for msg_sites)
+
+
 def scan_outputs(ctx, cfg, desc, wd, run, roots):
     """returns list of (where, leaked prefix, string)"""
     found = []
     outs = {}
+    if run.get('error') is not None:
+        SEEN_TEXTS.append(str(run['error']))
     if run['json'] is not None:
         outs['json'] = {k: run['json'].get(k) for k in ('config', 'log',
                                                          'metadata')}
@@ -824,6 +829,8 @@ def scan_outputs(ctx, cfg, desc, wd, run, roots):
             csvp).read_text().splitlines() if l.startswith('#')]}
     for where, blob in outs.items():
         for p, s in strings_of(blob):
+            if len(SEEN_TEXTS) < 20000:
+                SEEN_TEXTS.append(s)
             for leak in scan_string(s, roots):
                 found.append((where + p, leak, s))
     return found, outs
@@ -1060,6 +1067,15 @@ def run(ctx):
         check_run(ctx, rng, failure, awkward, combo=combo)
     for failure, awkward, combo, use_tmp in extra:
         check_run(ctx, rng, failure, awkward, combo=combo, use_tmp=use_tmp)
+    # which of the package's path-carrying messages did the runs reach?
+    try:
+        site_list = msg_sites.sites(core.REPO)
+        reached, unreached = msg_sites.classify(site_list, SEEN_TEXTS)
+        ctx.extra_cov['path_message_sites'] = {
+            'total': len(site_list), 'reached': reached,
+            'unreached': unreached}
+    except Exception as e:     # coverage information only
+        ctx.log('msg_sites failed: %r' % e)
     # the scanner is not blind: the same kind of run without cloud_safe
     # must show paths
     _, found = check_run(ctx, rng, 'success', True, cloud_safe=False)
